@@ -3,6 +3,7 @@ package actor
 import (
 	"encoding/json"
 	"fmt"
+	"reflect"
 	"strings"
 	"sync"
 	"testing"
@@ -67,7 +68,119 @@ func hiddenViolation(t *pokertable.Table) string {
 	return ""
 }
 
+// deepScribble overwrites everything reachable from v through exported fields: numbers,
+// strings and booleans in place, slice elements and map values in place (maps also get
+// keys rewritten where the value type allows it). Whatever the engine shares with this
+// value - at any depth - is changed with it.
+func deepScribble(v reflect.Value, depth int) {
+	if depth > 12 {
+		return
+	}
+	switch v.Kind() {
+	case reflect.Ptr, reflect.Interface:
+		if !v.IsNil() {
+			deepScribble(v.Elem(), depth+1)
+		}
+	case reflect.Struct:
+		for i := 0; i < v.NumField(); i++ {
+			if v.Type().Field(i).PkgPath == "" { // exported
+				deepScribble(v.Field(i), depth+1)
+			}
+		}
+	case reflect.Slice, reflect.Array:
+		for i := 0; i < v.Len(); i++ {
+			deepScribble(v.Index(i), depth+1)
+		}
+	case reflect.Map:
+		for _, k := range v.MapKeys() {
+			e := v.MapIndex(k)
+			switch e.Kind() {
+			case reflect.Ptr, reflect.Map, reflect.Slice, reflect.Interface:
+				deepScribble(e, depth+1)
+			default:
+				n := reflect.New(e.Type()).Elem()
+				n.Set(e)
+				deepScribble(n, depth+1)
+				v.SetMapIndex(k, n)
+			}
+		}
+	case reflect.Int, reflect.Int8, reflect.Int16, reflect.Int32, reflect.Int64:
+		if v.CanSet() {
+			v.SetInt(-7777)
+		}
+	case reflect.Uint, reflect.Uint8, reflect.Uint16, reflect.Uint32, reflect.Uint64:
+		if v.CanSet() {
+			v.SetUint(7777)
+		}
+	case reflect.Float32, reflect.Float64:
+		if v.CanSet() {
+			v.SetFloat(-7.5)
+		}
+	case reflect.String:
+		if v.CanSet() {
+			v.SetString("scribbled")
+		}
+	case reflect.Bool:
+		if v.CanSet() {
+			v.SetBool(!v.Bool())
+		}
+	}
+}
+
+// reachable collects the addresses of every pointer target, map and non-empty slice backing
+// array reachable from v through exported fields, with the path that leads there.
+func reachable(v reflect.Value, path string, out map[uintptr]string, depth int) {
+	if depth > 12 {
+		return
+	}
+	switch v.Kind() {
+	case reflect.Ptr:
+		if !v.IsNil() {
+			out[v.Pointer()] = path
+			reachable(v.Elem(), path, out, depth+1)
+		}
+	case reflect.Interface:
+		if !v.IsNil() {
+			reachable(v.Elem(), path, out, depth+1)
+		}
+	case reflect.Struct:
+		for i := 0; i < v.NumField(); i++ {
+			if v.Type().Field(i).PkgPath == "" {
+				reachable(v.Field(i), path+"."+v.Type().Field(i).Name, out, depth+1)
+			}
+		}
+	case reflect.Slice:
+		if v.Len() > 0 {
+			out[v.Pointer()] = path + "[]"
+		}
+		for i := 0; i < v.Len(); i++ {
+			reachable(v.Index(i), fmt.Sprintf("%s[%d]", path, i), out, depth+1)
+		}
+	case reflect.Map:
+		if !v.IsNil() {
+			out[v.Pointer()] = path + "{}"
+			for _, k := range v.MapKeys() {
+				reachable(v.MapIndex(k), fmt.Sprintf("%s{%v}", path, k), out, depth+1)
+			}
+		}
+	}
+}
+
+// sharedWith names a piece of structure that both values can reach ("" = disjoint).
+func sharedWith(a, b interface{}) string {
+	ra, rb := map[uintptr]string{}, map[uintptr]string{}
+	reachable(reflect.ValueOf(a), "", ra, 0)
+	reachable(reflect.ValueOf(b), "", rb, 0)
+	for p, where := range ra {
+		if w2, ok := rb[p]; ok {
+			return where + " == " + w2
+		}
+	}
+	return ""
+}
+
 func scribble(t *pokertable.Table) {
+	defer deepScribble(reflect.ValueOf(t), 0)
 	t.ID = "scribbled"
 	t.State.Status = "scribbled"
 	t.State.GameCount = -77
@@ -186,12 +299,20 @@ func c20Body(c *run.Ctx) {
 				report("C20.shared-with-engine", fmt.Sprintf("actor %d (%s) received the engine's own table structure", i, x.kind))
 				return
 			}
+			if w := sharedWith(x.got.t, live); w != "" {
+				report("C20.shared-with-engine", fmt.Sprintf("actor %d (%s) and the engine's table reach the same structure: %s", i, x.kind, w))
+				return
+			}
 			for j, y := range atts {
 				if j <= i || y.got == nil {
 					continue
 				}
 				if x.got.t == y.got.t || x.got.t.State == y.got.t.State || (x.got.t.State.GameState != nil && x.got.t.State.GameState == y.got.t.State.GameState) {
 					report("C20.shared-between-actors", fmt.Sprintf("actors %d (%s) and %d (%s) received the same table structure", i, x.kind, j, y.kind))
+					return
+				}
+				if w := sharedWith(x.got.t, y.got.t); w != "" {
+					report("C20.shared-between-actors", fmt.Sprintf("actors %d (%s) and %d (%s) reach the same structure: %s", i, x.kind, j, y.kind, w))
 					return
 				}
 			}
